@@ -1,6 +1,8 @@
 # Table consumed by tools/manifest.py
 NOT_APPLICABLE = {}
 ENGINES = [
+ {"name": "E1-sequences", "path": "/verif/harness/root/kit_explore_test.go", "serves_properties": ["C02", "C03", "C04", "C10", "C13", "C16", "C19"],
+  "kind_free_text": "stateless depth-bounded exhaustive exploration of operation sequences on the real FileWriter (successor = replay on a fresh file), reference model / differential oracle after every sequence"},
  {"name": "E4-grid", "path": "/verif/harness (in-package tests injected by overlay)", "serves_properties": ["C20"],
   "kind_free_text": "exhaustive enumeration of finite input/configuration grids against a reference written in Go"},
 ]
@@ -8,3 +10,16 @@ add("C20", "exploration", "exhaustive enumeration of the finite input domain aga
     "Quick: all codes of the three formats and 16 x 2^20 float32 patterns per format covering every sign/exponent/upper mantissa and both sides of every tie; thorough: all 2^32 float32 bit patterns per format. Every pattern is compared with an exact reference (nearest representable value defined by the library's own decoder, ties to even) and monotonicity is checked along the bit order. The thorough tier decides the property outright because the domain is finite.",
     "Trusted: the library's decoder defines the representable set (its code->value map is itself checked for code round trip); float64 arithmetic is exact for all values and midpoints involved.",
     "DESIGN.md §5 C20", "E4-grid")
+
+add("C02", "model_checking", "exhaustive enumeration of write/delete attribute sequences up to a depth from threshold-adjacent start states, compared with a map model",
+    "Every sequence of length <= 3 over write(name,value)/delete(name) with colliding-hash names and mixed value sizes is executed on the real writer from 6 start states (0,6,7,8,9 filler attributes, dense emptied to 1) on a dataset and a group, superblock 2/3/0; after each sequence the reopened attribute set (names, datatype class/size/sign, shape, raw bytes, decoded value) must equal the map model. Bounded model checking of the implementation itself: no abstract model, every trace is an execution.",
+    "Trusted: the harness' expected little-endian encodings of Go values; the read API used for observation (core.Attribute fields). Bound: depth 3 (not hundreds of operations), names/values from the listed alphabet.",
+    "DESIGN.md §5 C02", "E1-sequences")
+add("C03", "model_checking", "exhaustive enumeration of creation/link sequences up to a depth against a tree model",
+    "Every sequence of length <= 3 (thorough 4) over 22 creation operations (groups, datasets, hard links incl. to ancestors and missing targets, soft/external links, dense group) from 3 start states per superblock version; Walk of the reopened file is compared with the model tree (paths, kinds, hard links share the target's object, no name twice, must-reject calls rejected). Only problems introduced by the last operation are reported, so each finding is tied to the call that causes it.",
+    "Trusted: the model's reading of the statement (trailing slash names the same object; below a cyclic hard link nothing is demanded). Bound: depth 3/4, 5 path names.",
+    "DESIGN.md §5 C03", "E1-sequences")
+add("C04", "model_checking", "exhaustive enumeration of enabled operation interleavings over 2-4 live objects with a before/after differential oracle",
+    "Every enabled sequence up to depth 5 (thorough 7) of {create X,Y,G,G/s; write X,Y; attributes on X,Y,G; delete attribute; hard links; resize} in 4 configurations (superblock 0/2/3, contiguous or chunked X) from 3 start states (empty, X one attribute short of dense storage, X dense); after each operation the dump of every object not aimed at must equal its dump before, and the file must open. Purely differential: no expected values.",
+    "Trusted: the read API as observer. Bound: depth 5/7, one size per object.",
+    "DESIGN.md §5 C04", "E1-sequences")
